@@ -736,7 +736,8 @@ func (w *World) opReserveFip() {
 	}
 	w.mustCreate("floatingips", map[string]interface{}{"apiVersion": "galaxy.k8s.io/v1alpha1", "kind": "FloatingIP",
 		"metadata": map[string]interface{}{"name": ip, "labels": map[string]interface{}{"reserved": ""}},
-		"spec":     map[string]interface{}{"key": "admin-reserved", "attribute": "", "policy": 2, "updateTime": nil}})
+		// the attribute of a hand-made object is free text: empty, a note, or something that is not JSON at all
+		"spec": map[string]interface{}{"key": "admin-reserved", "attribute": pick(w.C, []string{"", "", "reserved for the db team", "{", "10.49.27.3"}), "policy": 2, "updateTime": nil}})
 	w.S.Stat("admin.reserve")
 }
 
